@@ -982,8 +982,8 @@ class CachedInput:
 
     def readline(self, size=-1):  # noqa: C901
         """Compatible file read which works with internal buffer."""
-        if size < 0:
-            size = self.block_size
+        if size < 0:    # no limit: a line ends with CRLF or the input
+            size = len(self.__buffer) + self.__todo
 
         line = b''
         l_size = 0
@@ -1017,7 +1017,7 @@ class CachedInput:
             l_size = len(line)
 
             if l_size < size:
-                n_size = min(self.__todo, size-l_size)
+                n_size = min(self.__todo, size-l_size, self.block_size)
                 if not n_size:      # all declared bytes were read
                     break
                 self.__buffer = self.__file.read(n_size)
